@@ -117,11 +117,17 @@ func c19RunMS(in []string) []string {
 	table := map[hash.Event]ancestor.Metric{}
 	fn := func(h hash.Event) ancestor.Metric { return table[h] }
 	var st *ancestor.MetricStrategy
-	if in[1] == "c" {
+	gen := 0 // mode g<size>: a NEW MetricFnCache(fn, size) + MetricStrategy per generation (= per T step), as
+	// QuorumIndexer.recacheState does; within a generation the function does not change
+	if in[1][0] == 'g' {
+		gen, _ = strconv.Atoi(in[1][1:])
+		st = ancestor.NewMetricStrategy(ancestor.NewMetricFnCache(fn, gen).GetMetricOf)
+	} else if in[1] == "c" {
 		st = ancestor.NewMetricStrategy(ancestor.NewMetricFnCache(fn, 128).GetMetricOf)
 	} else {
 		st = ancestor.NewMetricStrategy(fn)
 	}
+	distinct := map[hash.Event]bool{}
 	var obs []string
 	var step []string
 	do := func() {
@@ -137,14 +143,28 @@ func c19RunMS(in []string) []string {
 				table[c19Hash(pu(step[2+2*i]))] = ancestor.Metric(pu(step[3+2*i]))
 			}
 			vu.Stat("ms.table_changed")
+			if gen > 0 {
+				st = ancestor.NewMetricStrategy(ancestor.NewMetricFnCache(fn, gen).GetMetricOf)
+				distinct = map[hash.Event]bool{}
+			}
 		case "H":
 			n := int(pu(step[1]))
 			opts := make(hash.Events, 0, n)
 			for i := 0; i < n; i++ {
 				opts = append(opts, c19Hash(pu(step[2+i])))
 			}
+			if gen > 0 {
+				over := len(distinct) > gen
+				for _, h := range opts {
+					distinct[h] = true
+				}
+				if over {
+					vu.Stat("ms.gen.requery_after_more_ids_than_capacity")
+				}
+				vu.Stat("ms.gen.size=" + vu.Itoa(gen))
+			}
 			obs = append(obs, vu.Itoa(st.Choose(nil, opts)))
-			vu.Stat("ms.choose." + in[1])
+			vu.Stat("ms.choose." + in[1][:1])
 		}
 		step = nil
 	}
@@ -714,6 +734,42 @@ func init() {
 						t = append(t, ";", "H", vu.Itoa(ln))
 						for x := 0; x < ln; x++ {
 							t = append(t, vu.Itoa(r.Intn(pool)))
+						}
+					}
+				}
+				emit(t...)
+			}
+			// the cache as a memoiser: a fresh NewMetricFnCache(fn, size) per generation, tiny and default sizes,
+			// more distinct ids than the capacity, re-queries of evicted ids within the generation
+			for i := 0; i < 90+n/40; i++ {
+				size := []int{1, 2, 3, 4, 7, 16, 128}[r.Intn(7)]
+				if i%15 == 14 {
+					size = 128
+				}
+				pool := size + 1 + r.Intn(6)
+				t := []string{"MS", "g" + vu.Itoa(size)}
+				for g, gk := 0, 1+r.Intn(3); g < gk; g++ {
+					t = append(t, ";", "T")
+					var tb []string
+					for id := 0; id < pool; id++ {
+						if r.Intn(8) != 0 {
+							tb = append(tb, vu.Itoa(id), vu.U64(uint64(1+r.Intn(50))))
+						}
+					}
+					t = append(t, vu.Itoa(len(tb)/2))
+					t = append(t, tb...)
+					for h, hk := 0, 3+r.Intn(4); h < hk; h++ {
+						ln := 1 + r.Intn(pool+2)
+						if h == 0 { // walk through all ids once: the first ones are evicted
+							ln = pool
+						}
+						t = append(t, ";", "H", vu.Itoa(ln))
+						for x := 0; x < ln; x++ {
+							if h == 0 {
+								t = append(t, vu.Itoa(x))
+							} else {
+								t = append(t, vu.Itoa(r.Intn(pool)))
+							}
 						}
 					}
 				}
